@@ -30,6 +30,9 @@ Json Scenario::to_json() const {
 	Json fl = Json::arr();
 	for (auto &f : faults) fl.push(Json::obj().set("call", f.call).set("index", f.index).set("errno", f.err));
 	j.set("faults", fl);
+	Json sl = Json::arr();
+	for (auto &x : stops) sl.push(Json::obj().set("stage", stage_name[x.kind]).set("occ", x.occ).set("at", x.at).set("duration", x.duration));
+	j.set("stops", sl);
 	Json mt = Json::arr();
 	for (auto &m : missing_tools) mt.push(m);
 	j.set("missing_tools", mt);
@@ -70,6 +73,14 @@ bool Scenario::from_json(const Json &j, Scenario &s) {
 		}
 	if (const Json *fl = j.get("faults"))
 		for (auto &f : fl->a) s.faults.push_back({f.gets("call"), (int)f.geti("index"), (int)f.geti("errno")});
+	if (const Json *sl = j.get("stops"))
+		for (auto &x : sl->a) {
+			StopPlan sp;
+			std::string st = x.gets("stage");
+			for (int i = 0; i < NSTAGE; i++) if (st == stage_name[i]) sp.kind = i;
+			sp.occ = (int)x.geti("occ"); sp.at = (int)x.geti("at"); sp.duration = (int)x.geti("duration");
+			s.stops.push_back(sp);
+		}
 	if (const Json *mt = j.get("missing_tools")) for (auto &m : mt->a) s.missing_tools.push_back(m.s);
 	s.readlink_fail = j.getb("readlink_fail");
 	s.stray_exit_step = (int)j.geti("stray_exit_step", -1);
@@ -213,6 +224,7 @@ static Scenario minimise(Scenario sc, const std::string &cls, const Outcome &fir
 		if (sc.readlink_fail) { Scenario t = sc; t.readlink_fail = false; attempt(t); }
 		for (size_t i = 0; i < sc.plans.size();) { Scenario t = sc; t.plans.erase(t.plans.begin() + i); if (!attempt(t)) i++; }
 		for (size_t i = 0; i < sc.faults.size();) { Scenario t = sc; t.faults.erase(t.faults.begin() + i); if (!attempt(t)) i++; }
+		for (size_t i = 0; i < sc.stops.size();) { Scenario t = sc; t.stops.erase(t.stops.begin() + i); if (!attempt(t)) i++; }
 		for (size_t i = 0; i < sc.missing_tools.size();) { Scenario t = sc; t.missing_tools.erase(t.missing_tools.begin() + i); if (!attempt(t)) i++; }
 		for (size_t i = 0; i < sc.plans.size(); i++) {
 			if (sc.plans[i].param > 0) { Scenario t = sc; t.plans[i].param = 0; if (!attempt(t)) { t = sc; t.plans[i].param = sc.plans[i].param / 2; if (t.plans[i].param != sc.plans[i].param) attempt(t); } }
